@@ -22,7 +22,7 @@ use crate::utils::{tag, BoolExt};
 use crate::{Error, RequiredVersion};
 
 /// Media playlist.
-#[derive(Builder, Debug, Clone, PartialEq, Eq)]
+#[derive(Builder, Debug, Clone, Eq)]
 #[builder(build_fn(skip), setter(strip_option))]
 #[non_exhaustive]
 pub struct MediaPlaylist<'a> {
@@ -132,6 +132,24 @@ pub struct MediaPlaylist<'a> {
     /// This field is optional.
     #[builder(default, setter(into))]
     pub unknown: Vec<Cow<'a, str>>,
+}
+
+impl PartialEq for MediaPlaylist<'_> {
+    // `StableVec` compares its capacity too, so the segments are compared one by
+    // one: two playlists with the same content are equal, however they were made.
+    fn eq(&self, other: &Self) -> bool {
+        self.target_duration == other.target_duration
+            && self.media_sequence == other.media_sequence
+            && self.discontinuity_sequence == other.discontinuity_sequence
+            && self.playlist_type == other.playlist_type
+            && self.has_i_frames_only == other.has_i_frames_only
+            && self.has_independent_segments == other.has_independent_segments
+            && self.start == other.start
+            && self.has_end_list == other.has_end_list
+            && self.segments.iter().eq(other.segments.iter())
+            && self.allowable_excess_duration == other.allowable_excess_duration
+            && self.unknown == other.unknown
+    }
 }
 
 impl<'a> MediaPlaylistBuilder<'a> {
